@@ -554,6 +554,11 @@ end ProgCmd
 /-! ## `keys`: key normalisation of Hamiltonian containers -/
 namespace KeysCmd
 def runKeys (j : Json) : Except String String := do
+  match j.getObjVal? "labels" with
+  | .ok (.arr a) =>
+      let ls ← natList a
+      pure (String.intercalate ";" ((Pyma.Formats.subspaces ls).map fun k => String.intercalate "," (k.map toString)))
+  | _ =>
   match j.getObjVal? "list_len" with
   | .ok (.num n) =>
       let ks := Pyma.Formats.listKeys n.mantissa.toNat
